@@ -182,6 +182,39 @@ def statement_pairs(check, wp, family, seed, npairs, maxchoices=6):
     return bad
 
 
+DEEP_SET = ["StmtStmtList", "StmtIf/else", "StmtElse", "StmtIf", "StmtWhile", "StmtWhile/alt", "StmtDo", "StmtFor/alt", "StmtForeach/alt", "StmtSwitch",
+            "StmtCase", "StmtDefault", "StmtTry", "StmtCatch", "StmtTry/finally", "StmtFinally", "StmtFunction", "StmtClass", "StmtClassMethod",
+            "StmtDeclare/block", "ExprClosure", "StmtExpression", "StmtEcho", "StmtReturn/expr", "ExprVariable", "ScalarLnumber", "Name", "NamePart",
+            "Parameter", "ExprAssign", "ExprArray/short", "ExprArrayItem"]
+
+
+def deep_sources(check, family, seed, num, depth=14):
+    """programs nested many blocks deep (SyntaxGen with a large depth budget over the block-forming variants only)"""
+    table, _ = syntax.generate(check, family, num=1, seed=seed, depth=1)
+    byid = {v["id"]: v for v in table["variants"]}
+    ids = {i for i in DEEP_SET if i in byid and byid[i]["fam"] in ("both", family)}
+    for _ in range(30):                      # close under "every category mentioned is inhabited" by adding leaf variants
+        cats = set()
+        for i in ids:
+            cats |= set(byid[i]["cats"])
+        if "stmt" in cats:
+            cats |= {"inner"}
+        missing = set()
+        for i in ids:
+            missing |= _needed_cats(byid[i]["fill"]) - cats
+        if not missing:
+            break
+        for c in sorted(missing):
+            cand = [v["id"] for v in table["variants"] if c in v["cats"] and v["leaf"] and v["fam"] in ("both", family)] or \
+                   [v["id"] for v in table["variants"] if c in v["cats"] and v["fam"] in ("both", family)]
+            if cand:
+                ids.add(cand[0])
+    table, behs = syntax.generate(check, family, rootcat="stmt", rootmax=1, depth=depth, num=num, seed=seed + 41, allowed=sorted(ids), maxchoices=250)
+    ex = expand_all(table, behs, seed, ["none"])
+    out = [e["variants"][0]["src"] for e in ex if not e.get("skip")]
+    return sorted(set(out), key=lambda x: -len(x))
+
+
 NOT_SCALABLE = {"heredoc/empty", "nowdoc/empty", "stmt+halt"}     # D6 (known finding) / must be last
 
 
